@@ -12,7 +12,7 @@ from sa.props._lib_j import (asserted_eq, catching_handler, edge_asserts, is_sel
 PROPERTY = "C50"
 LF = "python/lockfile.py"
 QL = "twisted.python.lockfile.FilesystemLock"
-TECHNIQUE = "CFG reachability through the atomic create, guard dominance, check-then-act (TOCTOU) path lint"
+TECHNIQUE = "CFG reachability through atomic create, guard dominance, flag typestate, TOCTOU lint"
 EXPLANATION = (
     "Decides on the CFG of FilesystemLock.lock: (a) `self.locked = True` / `return True` are reachable only through the normal "
     "(non-raising) out-edge of symlink(str(os.getpid()), self.name), the atomic create, and locked is written True nowhere else; "
@@ -25,7 +25,9 @@ EXPLANATION = (
     "isLocked releases what it acquired; the POSIX primitives are os.symlink/readlink/remove/kill and the Windows emulation "
     "publishes the lock name only by rename from a unique temporary. Not decided: the interleaving semantics themselves. "
     "Every anchor function is also checked to be entered on every call (no memoising/wrapping decorator, duplicate definition or rebinding). "
+    "Methods: every clause is decided structurally on the CFG of lock/unlock/isLocked (reachability, dominance, flag typestate); nothing is evaluated. "
 )
+RULE_KINDS = {"*": "structural"}     # CFG reachability through the atomic create, guard dominance, typestate of the clean flag, check-then-act path lint
 ASSUMPTIONS = [
     "the rules read a normalised view of the anchored modules (sa/props/_lib_j.Normaliser): private helpers expanded at their call sites, module constants and single-assignment pure temporaries substituted, loops over constant tuples unrolled; evaluation order inside one statement is not modelled",
    
